@@ -273,6 +273,45 @@ def r4(ctx: Context) -> None:
                 keys.add(ast.unparse(k))
         ok = bool(keys) and keys <= {want}
         ctx.add("R4", f"app-info-registry::{meth}::keyed-by-app-id", ok, f.loc(), "" if ok else f"registry accessed with {sorted(keys)}")
+    # every MUTATION of a class-level registry of a component touches one app's entry only
+    n_mut = 0
+    for c in classes:
+        shared = [n for n, v in c.class_attrs.items() if _is_mutable_container(v)]
+        if not shared:
+            continue
+        users = [c] + [x for x in c.all_subclasses()]
+        for u in users:
+            for f in u.methods.values():
+                if not f.params or f.params[0] != "self":
+                    continue  # classmethods / staticmethods are process-wide administration, not an operation of one app
+                for n in walk_no_nested(f.node):
+                    hit = None  # (attribute name, kind, key expr or None)
+                    def reg(e):
+                        return e.attr if isinstance(e, ast.Attribute) and e.attr in shared and (ast.unparse(e.value) in (c.name, "cls", "type(self)", "self.__class__", "self")) else None
+                    if isinstance(n, (ast.Assign, ast.Delete)):
+                        for t in n.targets:
+                            if isinstance(t, ast.Subscript) and reg(t.value):
+                                hit = (reg(t.value), "item", t.slice)
+                            elif reg(t):
+                                hit = (reg(t), "rebind", None)
+                    elif isinstance(n, ast.Call) and isinstance(n.func, ast.Attribute) and reg(n.func.value) and n.func.attr in ("clear", "update", "pop", "popitem", "setdefault", "append", "extend", "remove", "add", "discard"):
+                        hit = (reg(n.func.value), n.func.attr, n.args[0] if n.func.attr in ("pop", "setdefault") and n.args else None)
+                    if hit is None:
+                        continue
+                    n_mut += 1
+                    attr, kind, key = hit
+                    ktxt = None
+                    if key is not None:
+                        ktxt = ast.unparse(key)
+                        if isinstance(key, ast.Name):
+                            from .c01 import _reaching_values
+
+                            vals = {ast.unparse(v) for v in _reaching_values(f, key.id)}
+                            if len(vals) == 1:
+                                ktxt = vals.pop()
+                    okm = kind in ("item", "pop", "setdefault") and ktxt is not None and (ktxt.endswith(".app_id") or ktxt.endswith("app.app_id"))
+                    ctx.add("R4", f"shared-registry::{c.name}.{attr}::{f.qualname}::{kind}", okm, f.loc(n), "" if okm else f"`{ast.unparse(n)[:70]}` changes the process-wide {c.name}.{attr} for every application, not only the entry of this app's id: purging / writing one app removes or replaces another app's data")
+    ctx.floor("R4", "mutations of class-level registries", n_mut, 1)
     # in-memory component state is created per instance in __init__
     for b in bases:
         for c in b.all_subclasses():
